@@ -86,6 +86,9 @@ func runC01(c *rules.Ctx) {
 	c.Let("SHARES", "accum.AccumulatorObject.GetTotalShares(cl.Keeper.GetSpreadRewardAccumulator(k,ctx,cl.Keeper.GetPosition(k,ctx,positionId)#0.PoolId)#0)")
 	c.CallArg(PC, "sdk.DecCoins.QuoDecTruncate", 1, "{SHARES}", "forfeited dust is spread over the shares that remain after the claim")
 	c.OnlyWhen(PC, "sdk.DecCoins.QuoDecTruncate", "not(sdkmath.LegacyDec.IsZero({SHARES}))", "the division by the remaining shares happens only when shares remain (the last position can always exit)")
+	// ---- accumulator scaling and forfeit redeposit (shared with C08): what is credited is what was paid in
+	clScalingRules(c)
+	clRedepositRules(c)
 	// ---- who may send from pool-owned accounts
 	c.SendersFrom("x/concentrated-liquidity", "cltypes.BankKeeper.SendCoins", 2, []string{"GetAddress", "GetSpreadRewardsAddress", "GetIncentivesAddress"},
 		[]string{"cl.Keeper.sendCoinsBetweenPoolAndUser", "cl.Keeper.updatePoolForSwap", "cl.Keeper.collectSpreadRewards", "cl.Keeper.collectIncentives", "cl.Keeper.redepositForfeitedIncentives", "cl.Keeper.WithdrawPosition", "cl.Keeper.CreatePosition"},
